@@ -538,6 +538,44 @@ def run(lines, out, args):
                         got = "FAIL: a complete %s ran while changed() was reading the base generations (read #%d), then the base was changed; later calls keep answering %r, the base holds %r" % (ep, skip + 1, later, new)
                     if got != "ok":
                         break
+            elif scen == "delleak":
+                # the destructor re-entry of `delhook`, repeated: every round a cached factory dies inside the cache invalidation and its
+                # destructor performs a lookup (for a generation-checking registry: a complete nested changed()).  Nothing may be left
+                # behind: the reference counts of the base registry and of the registry itself stay where they were
+                Reg = A.VerifyingAdapterRegistry if flavour == "verifying" else A.AdapterRegistry
+                base = Reg()
+                reg = Reg((base,))
+                IPy = InterfaceClass("IPy", (Interface,), __module__="zi.gen")
+                base.register((IR,), IPy, "", fac1)
+
+                class Dying:
+                    def __call__(self, *a):
+                        return "dying"
+
+                    def __del__(self):
+                        reg.lookup((IR,), IPy, "")
+                        reg.lookupAll((IR,), IPy)
+
+                def cycle():
+                    f1 = Dying()
+                    base.register((IR,), IP, "", f1)
+                    base.subscribe((IR,), IP, f1)
+                    ask(reg, ep, ob)
+                    base.unsubscribe((IR,), IP, f1)
+                    base.register((IR,), IP, "", fac2)
+                    f1 = None
+                    ask(reg, ep, ob)
+                for _ in range(5):
+                    cycle()
+                gc.collect()
+                before = (sys.getrefcount(base), sys.getrefcount(reg), len(gc.get_referrers(base)))
+                for _ in range(60):
+                    cycle()
+                gc.collect()
+                after = (sys.getrefcount(base), sys.getrefcount(reg), len(gc.get_referrers(base)))
+                if any(a_ - b_ >= 30 for a_, b_ in zip(after, before)):
+                    got = ("FAIL: 60 rounds of a cached factory dying inside the cache invalidation of %s (its destructor looks the registry up) "
+                           "changed (refcount of the base registry, refcount of the registry, objects referring to the base) from %r to %r" % (ep, before, after))
             elif scen == "notifyhook":
                 # a dependent of an interface S (anything may `S.subscribe()`: a registry of another kind, a persistence layer) that,
                 # from INSIDE the notification of a re-basing of S, asks the registry about a sub-interface D of S that has not been
